@@ -414,3 +414,26 @@ Example C20_source_add_many_batch_order :
     g_gcsa_add_many_batch_results (fun d i => nth (Z.to_nat i) d missing) results events = results
   := @g_gcsa_add_many_batch_results_eq.
 Print Assumptions C20_source_add_many_batch_order.
+
+(* ---- recurring patterns through the adapter (Proofs/GcsaRec.v): a daily or weekly pattern written by
+   add_recurring reads back from the backend's expansion with the pattern's own occurrences — every interval,
+   BYDAY list, exdates, window; timed and all-day.  The hypotheses say that the wall-clock readings involved do
+   not fall into a DST gap of the pattern's zone; the three refuted statements show that they cannot be
+   dropped under the simulated backend (which repeats the master's WALL-CLOCK span, as Google documents for
+   recurring events). ---- *)
+From CG Require Import Proofs.GcsaRec.
+Example C20_add_recurring_reads_back_timed : _ := add_recurring_reads_back_timed.
+Check add_recurring_reads_back_timed.
+Print Assumptions C20_add_recurring_reads_back_timed.
+Example C20_add_recurring_reads_back_allday : _ := add_recurring_reads_back_allday.
+Check add_recurring_reads_back_allday.
+Print Assumptions C20_add_recurring_reads_back_allday.
+Example C20_add_recurring_rows_convert : _ := add_recurring_rows_convert.
+Print Assumptions C20_add_recurring_rows_convert.
+Example C20_add_recurring_rows_ascending : _ := add_recurring_rows_ascending.
+Print Assumptions C20_add_recurring_rows_ascending.
+Example C20_reads_back_timed_gap_end_refuted : _ := reads_back_timed_gap_end_refuted.
+Print Assumptions C20_reads_back_timed_gap_end_refuted.
+Example C20_reads_back_timed_gap_start_refuted : _ := reads_back_timed_gap_start_refuted.
+Example C20_reads_back_allday_gap_midnight_refuted : _ := reads_back_allday_gap_midnight_refuted.
+Example C20_add_recurring_nonvacuous : _ := timed_daily_full_table.
